@@ -32,7 +32,7 @@ def plan(tier):
   if tier == "quick":
     return [
         (0, 3, product(VERSIONS, DIALECTS, (1,), ALL) +
-               product((None,), ("standard",), (1,), ("carry",))),
+               product((None,), ("standard",), (0, 1), ("carry",))),
         (4, 4, product(VERSIONS, ("standard",), (1,), ("list",)) +
                product((None,), ("standard",), (1,), ("inc", "objs")) +
                product((None,), ("rgfa",), (1,), ("list",))),
@@ -42,7 +42,7 @@ def plan(tier):
              product(VERSIONS, DIALECTS, (2, 3), ("list",)) +
              # (level >= 1: level 0 is documented to skip the cross-check
              # between a VN header and the content)
-             product((None,), ("standard",), (1, 2, 3), ("carry",))),
+             product((None,), ("standard",), (0, 1, 2, 3), ("carry",))),
       (5, 5, product((None,), ("standard",), (1,), ("list",))),
   ]
 
@@ -132,7 +132,18 @@ def judge_carry(b, lines, exp, cfg):
     texts = [observe.safe_str(l) for l in g.lines if not observe.is_virtual(l)]
   except Exception as e:
     return out
-  if v is None or not texts:
+  if v not in ("gfa1", "gfa2"):
+    # undecided -- or, at level 0 only, whatever an unchecked VN tag says
+    return out
+  # the version is decided: nothing waits in the queue any more, every line
+  # that was not refused is in the Gfa exactly once
+  kept = [l for i, l in enumerate(lines) if i not in (b.refused or [])]
+  p = once_problem(g, kept)
+  if p is not None:
+    out.append(("line-not-once", p[0], "every accepted line exactly once in "
+                "g.lines once the version is known", p[1]))
+  if vlevel == 0 or not texts:
+    # (level 0 is documented to skip the cross-check between VN and content)
     return out
   try:
     g2 = gfapy.Gfa(list(texts), vlevel=vlevel, dialect=dialect)
